@@ -261,6 +261,12 @@ func RunCheck(opts CheckOpts) *CheckReport {
 	if err := prog.LoadConsts(); err != nil {
 		return fail("consts: %v", err)
 	}
+	// interface contracts become the contracts of their implementors' methods
+	for _, k := range cs.ExpandIfaceContracts(prog) {
+		if propsOfContract(cs.Funcs[k])[opts.Prop] {
+			keys = append(keys, k)
+		}
+	}
 	loadS := time.Since(t0).Seconds()
 
 	work := filepath.Join(VerifDir, ".work", fmt.Sprintf("%s-%d", opts.Prop, os.Getpid()))
